@@ -711,6 +711,92 @@ def encode_atoms_only(o, I, ids: Ids) -> str:
     return " ".join(["M", str(mid), "1", "0,0,1", f"{ids.fresh()}/", str(ids.fresh()), "+".join(atoms) or "-",
                      str(ids.fresh()), "-", "-"])
 
+# ---------------------------------------------------------------------------------------------
+# the full state of a source, hidden parts included (compared before / after a derivation)
+# ---------------------------------------------------------------------------------------------
+def hidden_state(o) -> tuple:
+    """which instance attributes and slots exist (a derivation must not leave caches or marks in its source) and the pickled
+    bytes of the object (everything __getstate__ sees, in order)"""
+    import hashlib
+    import pickle
+
+    objs = [o] + ([o._parent] if clsname(o) == "Conformer" else [])
+    out = []
+    for x in objs:
+        slots = []
+        for c in type(x).__mro__:
+            for sl in getattr(c, "__slots__", ()):
+                if sl not in ("__weakref__", "__dict__"):
+                    try:
+                        v = object.__getattribute__(x, sl)
+                        slots.append((sl, type(v).__name__))
+                    except AttributeError:
+                        slots.append((sl, "<unset>"))
+        keys = sorted(getattr(x, "__dict__", {}).keys())
+        out.append((tuple(keys), tuple(slots)))
+    try:
+        digest = hashlib.sha1(pickle.dumps(objs[-1], protocol=4)).hexdigest()
+    except Exception as e:
+        digest = f"unpicklable:{type(e).__name__}"
+    return (tuple(out), digest)
+
+
+def hidden_diff(a: tuple, b: tuple) -> str:
+    if a == b:
+        return ""
+    if a[0] != b[0]:
+        for (k1, s1), (k2, s2) in zip(a[0], b[0]):
+            if k1 != k2:
+                return f"instance attributes {sorted(set(k1) ^ set(k2))}"
+            ch = [x[0] for x, y in zip(s1, s2) if x != y]
+            if ch:
+                return f"slots {ch}"
+    return "pickled bytes of the source differ"
+
+
+def count_edit(rng, o, ml, mode: str, protect=()):
+    """edits of a source between two derivations: keep (delete one atom, add a non-bonded one: same atom count), grow, shrink,
+    bonds, coords, attrib; returns a short description (or None if the class does not define the edit)"""
+    name = clsname(o)
+    if name in ("ConformerEnsemble", "Conformer"):
+        e = owner(o)
+        if mode in ("keep", "grow", "shrink", "bonds"):
+            if len(e.bonds) and rng.below(2):
+                e.del_bond(e.bonds[rng.below(len(e.bonds))]); return "del_bond"
+            if e.n_atoms >= 2:
+                e.connect(0, e.n_atoms - 1); return "connect"
+            mode = "coords"
+        if mode == "coords":
+            e.translate([0.5, 1.0, -2.0]); return "translate"
+        e.attrib["edited"] = [rng.below(9)]; return "attrib"
+    cand = [i for i in range(o.n_atoms) if not any(o.atoms[i] is p for p in protect)]
+
+    def add():
+        a = ml.Atom(rng.choice(["He", "Ne", "Ar"]), label="added")
+        if name in ("Promolecule", "Connectivity"):
+            o.append_atom(a)
+        elif name == "Molecule":
+            o.add_atom(a, [9.0, 8.0, 7.0], 0.75)
+        else:
+            o.add_atom(a, [9.0, 8.0, 7.0])
+
+    if mode == "keep" and cand:
+        o.del_atom(cand[rng.below(len(cand))]); add(); return "del_atom + add_atom (same count)"
+    if mode == "shrink" and cand:
+        o.del_atom(cand[rng.below(len(cand))]); return "del_atom"
+    if mode in ("grow", "keep", "shrink"):
+        add(); return "add_atom"
+    if mode == "bonds" and has_bonds(o):
+        free = [b for b in o.bonds if not any(b.a1 is p or b.a2 is p for p in protect)]
+        if free and rng.below(2):
+            o.del_bond(free[rng.below(len(free))]); return "del_bond"
+        if len(cand) >= 2:
+            o.connect(cand[0], cand[-1]); return "connect"
+    if mode == "coords" and name in ("CartesianGeometry", "Structure", "Molecule"):
+        o.translate([0.5, 1.0, -2.0]); return "translate"
+    o.attrib["edited"] = [rng.below(9)]
+    return "attrib"
+
 
 # ---------------------------------------------------------------------------------------------
 # mutations of every mutable component (the oracle applies them to one side and re-inspects the other)
